@@ -708,6 +708,7 @@ def run(ctx):
             n5 += check_undef(ctx, fi, cls)
     attributes_defined(ctx, "C06.R5")
     no_undefined_names(ctx, "C06.R5")
+    free_names_defined(ctx, "C06.R5")
     ctx.floor("C06.R5", 10 + 300)
 
     # ---------------------------------------------------------------- positive controls
